@@ -483,6 +483,58 @@ class Body:
         self._stable = cand
         return cand
 
+    def status_options(self):
+        """Named Option-typed locals used as status variables (LevelDB idiom: `maybe_error`), tested at least
+        twice. Returns (set of locals, links) where links maps a bool temp to (option local, 'none'|'some') for
+        `is_none(&x)` / `is_some(&x)` calls, and discr maps a discriminant temp to the option local."""
+        if getattr(self, "_status", None) is not None:
+            return self._status
+        cand = set()
+        for l in range(self.nargs + 1, len(self.locals)):
+            if self.locals[l].get("name") and self.locals[l]["ty"].startswith("std::option::Option<"):
+                cand.add(l)
+        links, discr = {}, {}
+        uses = {}
+        for b in range(self.n):
+            for st in self.blocks[b]["stmts"]:
+                if st["k"] == "assign" and st["rv"]["k"] == "discr" and not st["pl"]["p"] and not st["rv"]["pl"]["p"] \
+                        and st["rv"]["pl"]["l"] in cand:
+                    discr[st["pl"]["l"]] = st["rv"]["pl"]["l"]
+                    uses.setdefault(st["rv"]["pl"]["l"], set()).add(b)
+            t = self.term(b)
+            if t["k"] == "call" and t["args"] and not t["dest"]["p"]:
+                nm = strip_generics(t.get("resolved") or t.get("callee"))
+                if nm in ("std::option::Option::is_none", "std::option::Option::is_some"):
+                    a = t["args"][0]
+                    if a["k"] in ("copy", "move") and not a["pl"]["p"]:
+                        # the argument is `&x`: find the ref statement in this block
+                        for st in self.blocks[b]["stmts"]:
+                            if st["k"] == "assign" and st["pl"]["l"] == a["pl"]["l"] and st["rv"]["k"] == "ref" \
+                                    and not st["rv"]["pl"]["p"] and st["rv"]["pl"]["l"] in cand and not st["rv"].get("mut"):
+                                links[t["dest"]["l"]] = (st["rv"]["pl"]["l"], "none" if nm.endswith("is_none") else "some")
+                                uses.setdefault(st["rv"]["pl"]["l"], set()).add(b)
+        cand = {l for l in cand if len(uses.get(l, ())) >= 2}
+        links = {d: v for d, v in links.items() if v[0] in cand}
+        discr = {d: x for d, x in discr.items() if x in cand}
+        self._status = (cand, links, discr)
+        return self._status
+
+    def _option_assign_value(self, st):
+        """abstract value (1 = Some, 0 = None, None = unknown) assigned by statement st to an option local"""
+        rv = st["rv"]
+        if rv["k"] == "aggregate":
+            return 1 if rv.get("variant") == "Some" else 0 if rv.get("variant") == "None" else None
+        if rv["k"] == "use" and rv["ops"][0]["k"] == "const":
+            txt = rv["ops"][0].get("text") or ""
+            return 0 if "None" in txt and "Some" not in txt else None
+        if rv["k"] == "use" and rv["ops"][0]["k"] in ("copy", "move") and not rv["ops"][0]["pl"]["p"]:
+            src = rv["ops"][0]["pl"]["l"]
+            ds = self.defs().get(src, [])
+            if len(ds) == 1 and ds[0][0] == "stmt" and ds[0][3]["rv"]["k"] == "aggregate":
+                v = ds[0][3]["rv"].get("variant")
+                return 1 if v == "Some" else 0 if v == "None" else None
+        return None
+
     def explore(self, init, transfer, start=0, cap=400000, follow_unwind=False):
         """Flag-sensitive forward exploration.
 
@@ -494,9 +546,12 @@ class Body:
         Returns (dict of visited product nodes, predecessor map)."""
         flags = sorted(self.flag_locals())
         stable = sorted(self.stable_bools())
-        allf = flags + stable
+        opt_locals, opt_links, opt_discr = self.status_options()
+        opts = sorted(opt_locals)
+        allf = flags + stable + opts
         fidx = {l: i for i, l in enumerate(allf)}
         nflags = len(flags)
+        nstable = len(flags) + len(stable)
         init_flags = tuple([None] * len(allf))
         seen = {}
         parent = {}
@@ -521,9 +576,22 @@ class Body:
                 if dl in fidx and fidx[dl] < nflags:
                     fl[fidx[dl]] = int(rv["ops"][0]["val"])
                     continue
+                if dl in fidx and fidx[dl] >= nstable:
+                    fl[fidx[dl]] = self._option_assign_value(st)   # status option: Some / None / unknown
+                    continue
                 if dl in fidx:
                     fl[fidx[dl]] = None   # (re)definition of a stable bool: value unknown again
                     continue
+                if rv["k"] == "ref" and rv.get("mut") and not rv["pl"]["p"] and rv["pl"]["l"] in fidx and fidx[rv["pl"]["l"]] >= nstable:
+                    fl[fidx[rv["pl"]["l"]]] = None   # `&mut status`: may be changed through the reference
+                if rv["k"] == "discr" and dl in opt_discr:
+                    x = opt_discr[dl]
+                    v = fl[fidx[x]]
+                    tmp[dl] = ("val", v) if v is not None else ("sym", x, 0)
+                    continue
+                if rv["k"] == "use" and rv["ops"][0]["k"] == "move" and rv["ops"][0]["pl"]["p"] and rv["ops"][0]["pl"]["l"] in fidx \
+                        and fidx[rv["ops"][0]["pl"]["l"]] >= nstable:
+                    pass  # moving the payload out (`if let Some(e) = status`): the variant stays what it was
                 if rv["k"] in ("use", "unop") and rv["ops"] and rv["ops"][0]["k"] in ("copy", "move") and not rv["ops"][0]["pl"]["p"]:
                     sl = rv["ops"][0]["pl"]["l"]
                     neg = 1 if (rv["k"] == "unop" and rv.get("op") == "Not") else 0
@@ -541,6 +609,11 @@ class Body:
                     elif sl in tmp:
                         k = tmp[sl]
                         tmp[dl] = ("val", k[1] ^ neg) if k[0] == "val" else ("sym", k[1], k[2] ^ neg)
+                    elif sl in opt_links:
+                        x, kind = opt_links[sl]
+                        v = fl[fidx[x]]
+                        n2 = neg ^ (1 if kind == "none" else 0)
+                        tmp[dl] = ("val", v ^ n2) if v is not None else ("sym", x, n2)
                     else:
                         tmp.pop(dl, None)
                 else:
@@ -548,6 +621,15 @@ class Body:
             t = self.term(bb)
             if t["k"] == "call" and not t["dest"]["p"] and t["dest"]["l"] in fidx and fidx[t["dest"]["l"]] >= nflags:
                 fl[fidx[t["dest"]["l"]]] = None
+            if t["k"] == "call":
+                nm_ = strip_generics(t.get("resolved") or t.get("callee"))
+                for a_ in t["args"]:
+                    # a status option handed out by `&mut` (e.g. take()) : afterwards None for take, unknown otherwise
+                    if a_["k"] in ("copy", "move") and not a_["pl"]["p"]:
+                        for st_ in self.blocks[bb]["stmts"]:
+                            if st_["k"] == "assign" and st_["pl"]["l"] == a_["pl"]["l"] and st_["rv"]["k"] == "ref" and st_["rv"].get("mut") \
+                                    and not st_["rv"]["pl"]["p"] and st_["rv"]["pl"]["l"] in fidx and fidx[st_["rv"]["pl"]["l"]] >= nstable:
+                                fl[fidx[st_["rv"]["pl"]["l"]]] = 0 if nm_ == "std::option::Option::take" else None
             us2 = transfer(bb, us, "stmts", self.blocks[bb])
             if us2 is None:
                 continue
@@ -564,6 +646,11 @@ class Body:
                         k = ("sym", l, 0)
                 elif l in tmp:
                     k = tmp[l]
+                elif l in opt_links:
+                    x, kind = opt_links[l]
+                    v = fl[fidx[x]]
+                    neg = 1 if kind == "none" else 0      # is_none(x) == !is_some(x)
+                    k = ("val", v ^ neg) if v is not None else ("sym", x, neg)
                 if k is not None and k[0] == "val":
                     v = k[1]
                     for val, tg in t["targets"]:
@@ -572,7 +659,7 @@ class Body:
                             break
                     if allowed is None:
                         allowed = ("sw:else", t["otherwise"])
-                elif k is not None and k[0] == "sym" and self.locals[k[1]]["ty"] == "bool":
+                elif k is not None and k[0] == "sym" and (self.locals[k[1]]["ty"] == "bool" or k[1] in opt_locals):
                     sym = k
             for lab, tg in self.edges(bb, unwind=follow_unwind):
                 if allowed is not None and (lab, tg) != allowed:
